@@ -10,4 +10,16 @@ PROPS = {
         "quick": {"cases": 20000, "secs": 40, "min_distinct": 20000},
         "thorough": {"cases": 400000, "secs": 600, "min_distinct": 400000},
     },
+    "C07": {
+        "rule": "case = one extension-type expression: every pool string through its constructor (bounded-exhaustive prefix), the boundary grid datetime x duration for offset/durationSince/comparisons and ip x ip for isInRange (bounded-exhaustive prefix), then random grammar-generated constructor strings, one-edit near misses, equality of two spellings, and every operation on boundary operands; evaluated through Evaluator::interpret and (constructors) RestrictedExpression::new_* read back from a context; oracle = independent calculators; distinct = hash of the expression; every case is non-trivial (it exercises at least one extension function)",
+        "assumptions": [ORACLE_REFSEM, "raw IPv4/IPv6 address grammar is that of std::net (outside the repository); calculators in ext.rs re-implement it by hand"],
+        "quick": {"cases": 60000, "secs": 40, "min_distinct": 100000},
+        "thorough": {"cases": 400000, "secs": 600, "min_distinct": 1000000},
+    },
+    "C01": {
+        "rule": "case = random world + policy set of 0..8 policies (static or template-linked) each built to have an intended outcome (satisfied / not satisfied / erroring, incl. errors hidden behind short-circuits) confirmed by the reference interpreter; the first 2*(6^0+..+6^3) indices (6^4 in thorough) enumerate every (effect, outcome) vector for n<=3 (4); the response (decision, reasons, erroring ids, error classes) is compared with the authorizer model, then the same inputs are re-presented 7 ways (same call twice, policies re-added in shuffled order with re-rendered text, ids renamed by a bijection into hostile spellings, entities shuffled / added incrementally / loaded from JSON, same Authorizer after unrelated calls) and every answer must coincide; non-trivial = >=1 policy and >=3 re-presentations answered; distinct = hash of (policies, slot bindings, world)",
+        "assumptions": [ORACLE_REFSEM, "per-policy outcomes come from the reference interpreter, not from the library"],
+        "quick": {"cases": 8000, "secs": 45, "min_distinct": 30000},
+        "thorough": {"cases": 300000, "secs": 900, "min_distinct": 1000000},
+    },
 }
